@@ -56,14 +56,27 @@ func genNode(r *core.PRNG, leaves int) *Node {
 	if leaves <= 1 {
 		n := &Node{Op: "leaf", Label: labels[r.Intn(3)], Value: values[r.Intn(3)]}
 		if r.Chance(1, 4) {
-			return &Node{Op: "not", L: n}
+			return negations(r, n)
 		}
 		return n
 	}
 	l := r.Range(1, leaves-1)
 	n := &Node{Op: []string{"and", "or"}[r.Intn(2)], L: genNode(r, l), R: genNode(r, leaves-l)}
 	if r.Chance(1, 5) {
-		return &Node{Op: "not", L: n}
+		return negations(r, n)
+	}
+	return n
+}
+
+// negations wraps n in one negation, sometimes in a chain of two or three (a negation whose
+// operand is itself a negation: printed with and without parentheses, see print).
+func negations(r *core.PRNG, n *Node) *Node {
+	k := 1
+	if r.Chance(1, 3) {
+		k = r.Range(2, 3)
+	}
+	for ; k > 0; k-- {
+		n = &Node{Op: "not", L: n}
 	}
 	return n
 }
@@ -105,6 +118,8 @@ func directed(tier string) []any {
 	leaf := &Node{Op: "leaf", Label: "a", Value: "x"}
 	pols := []*Node{leaf, {Op: "not", L: leaf}, {Op: "not", L: &Node{Op: "not", L: leaf}},
 		{Op: "not", L: &Node{Op: "and", L: leaf, R: &Node{Op: "leaf", Label: "b", Value: "y"}}},
+		{Op: "and", L: leaf, R: &Node{Op: "not", L: &Node{Op: "not", L: &Node{Op: "leaf", Label: "b", Value: "y"}}}},
+		{Op: "or", L: &Node{Op: "not", L: &Node{Op: "not", L: &Node{Op: "not", L: &Node{Op: "leaf", Label: "b", Value: "y"}}}}, R: leaf},
 		{Op: "or", L: &Node{Op: "and", L: leaf, R: &Node{Op: "leaf", Label: "a", Value: "y"}}, R: &Node{Op: "not", L: &Node{Op: "leaf", Label: "a", Value: "x"}}}}
 	holders := []Holder{{Attrs: map[string]string{"a": "x"}}, {Attrs: map[string]string{"a": "y"}}, {Attrs: map[string]string{"b": "y"}}, {Attrs: map[string]string{}}, {Attrs: map[string]string{"a": "x", "b": "y"}}}
 	for i, pol := range pols {
@@ -113,7 +128,9 @@ func directed(tier string) []any {
 			if end > len(holders) {
 				end = len(holders)
 			}
-			out = append(out, &Plan{Seed: uint64(i*10 + j), Policy: pol, Holders: holders[j:end], MsgLen: []int{0, 5, 33}[i%3]})
+			for _, sp := range []int{0, 2} {
+				out = append(out, &Plan{Seed: uint64(i*10 + j), Policy: pol, Holders: holders[j:end], MsgLen: []int{0, 5, 33}[i%3], Spaces: sp})
+			}
 		}
 	}
 	// every single-bit flip of one ciphertext, in windows
@@ -143,7 +160,9 @@ func (n *Node) print(sp int) string {
 	case "leaf":
 		return n.Label + colon + n.Value
 	case "not":
-		if n.L.Op == "leaf" && sp == 2 {
+		// the operand of not needs no parentheses of its own: a leaf, another negation
+		// ("not not a:x") and a parenthesised group all follow the keyword directly
+		if sp == 2 || sp == 4 || (sp == 1 && n.L.Op != "leaf") {
 			return "not " + n.L.print(sp)
 		}
 		return "not (" + n.L.print(sp) + ")"
@@ -404,12 +423,41 @@ func exec(planJSON []byte, run *core.Run) {
 				run.Violate(comp+".AttributeKey.Decrypt", "qualified-holder-cannot-decrypt", "policy %q, attributes %v, |msg|=%d: err=%v", src, h.Attrs, len(msg), err)
 				return
 			}
+			// the seam of the adversarial holder is the real decryption when nothing is weakened
+			if am, aok, aerr := key.VerifDecryptWeakened(ct, 0); aerr != nil || !aok || !bytes.Equal(am, msg) {
+				panic(fmt.Sprintf("HARNESS: VerifDecryptWeakened(mask 0) differs from Decrypt: %v %v", aok, aerr))
+			}
 		} else {
 			run.Probe("holder-does-not-satisfy")
 			run.Fault("transport:ciphertext-to-unqualified-holder")
 			if err == nil {
 				run.Violate(comp+".AttributeKey.Decrypt", "unqualified-holder-decrypts", "policy %q, attributes %v: decryption succeeded", src, h.Attrs)
 				return
+			}
+				// the unqualified holder does not follow the protocol either: it combines the
+			// ciphertext components of whatever wires its key matches (gates of the formula
+			// treated as OR gates when the wires are chosen); the real parsing,
+			// decapsulation, envelope and MAC code runs on the weakened formula
+			ng := tkn20.VerifGateCount(ct)
+			masks := []uint64{^uint64(0), ^uint64(0) >> 1 << 1, core.NewPRNG(p.Seed + 77 + uint64(hi)).Uint64()}
+			for g := 0; g < ng && g < 8; g++ {
+				masks = append(masks, 1<<uint(g))
+			}
+			for _, m := range masks {
+				var am []byte
+				var aok bool
+				pan, v, st := core.Try(func() { am, aok, _ = key.VerifDecryptWeakened(ct, m) })
+				if pan {
+					// a holder's own computation that crashes reveals nothing
+					_ = v
+					_ = st
+					continue
+				}
+				run.Fault("adversary:unqualified-holder-combines-wires-of-its-choice")
+				if aok {
+					run.Violate(comp+".Encrypt", "unqualified-holder-recovers-the-session-key", "policy %q, attributes %v: combining the ciphertext components of the wires the key matches (gates %#x of the formula taken as OR) yields the encapsulated key: the MAC verifies and the message %x is recovered (sent %x)", src, h.Attrs, m, am, msg)
+					return
+				}
 			}
 		}
 		// corrupted ciphertext on the way to this holder
